@@ -246,6 +246,11 @@ Proof.
       destruct ((code =? ".") || (code =? "P") || (code =? "[")); [|apply eqM_refl].
       apply eqM_bind; [apply s_first_equiv; auto|]. intro first.
       apply eqM_bind; [apply t_ops_scope_equiv; auto|intro; apply eqM_refl].
+    + destruct ops as [|[c1 x1] [|[c2 x2] [|? ?]]]; try apply eqM_refl.
+      destruct x1; try apply eqM_refl. destruct x2; try apply eqM_refl.
+      destruct ((c1 =? ".") || (c1 =? "P")); cbn [andb]; [|apply eqM_refl].
+      destruct ((c2 =? ".") || (c2 =? "P")); [|apply eqM_refl].
+      apply eqM_bind; [apply s_first_equiv; auto|intro first; apply eqM_refl].
   - (* SBind *) apply eqM_bind; [apply bind_loop_equiv; auto|intro; apply eqM_refl].
   - (* SDict *) destruct (farg own0).
     + destruct od; [apply eqM_refl|]. apply eqM_bind; [apply fill_dict_loop_equiv; auto|intro; apply eqM_refl].
